@@ -322,6 +322,7 @@ def judge_cli(s, docs, ended, tmpdir, tag):
 
 
 def run(s):
+    K.hostile_callers(s)
     K.suite_workload(s)
     import shutil
     import tempfile
